@@ -187,12 +187,15 @@ def run_property(prop, tier, seed):
     spec = PROPS[prop]
     units = spec["units"]
     canary = (tier == "thorough") or spec.get("canary_quick", True)
-    with ThreadPoolExecutor(max_workers=min(16, max(1, len(units)))) as ex:
-        results = list(ex.map(lambda u: runner.run_unit(u, canary=canary), units))
     kani_results = []
-    if spec.get("kani"):
-        from . import kani
-        kani_results = kani.run_harnesses(prop, spec["kani"], tier)
+    with ThreadPoolExecutor(max_workers=min(16, max(1, len(units))) + 1) as ex:
+        kfut = None
+        if spec.get("kani") and (tier == "thorough" or spec.get("kani_quick") or os.environ.get("VERIF_KANI") == "1"):
+            from . import kani
+            kfut = ex.submit(kani.run_harnesses, prop, spec["kani"], tier)      # concurrently with the Verus units
+        results = list(ex.map(lambda u: runner.run_unit(u, canary=canary), units))
+        if kfut is not None:
+            kani_results = kfut.result()
     notes = []
     undecided = []
     violations = []
@@ -260,6 +263,12 @@ def run_property(prop, tier, seed):
             w, note = rp.find_witness(v["obligation"], seed)
         v["witness"] = w
         v["witness_note"] = note
+        # A `debug_assert!` of the SOURCE that Verus cannot discharge is a question about panics (C06's), not about the functional
+        # obligations of this property: without a failing input from the bounded search (the driver runs the real crate with debug
+        # assertions ON) it is reported as undecided, not as a violation.  Properties that are about panics (`kinds`) keep it.
+        if w is None and v.get("kind") == "debug_assert" and not PROPS[prop].get("kinds"):
+            undecided.append("source assertion not discharged, no failing input found (%s): %s" % (note or "bounded search", v["obligation"]))
+            continue
         # known finding?
         hit = None
         for k in known:
